@@ -991,8 +991,9 @@ def c08(rep, tier, seed, wd, replay):
     keys = hist.interop_keys(dh, nacct + 2)
     rng = Rng(seed * 31337 + 8)
     accts = [hist.Acct("Wallet 1" if i % 2 == 0 else "Wallet 2", "Account %d" % i, keys[i]) for i in range(nacct)]
+    locked = hist.Acct("Wallet 1", "Locked", keys[nacct], unlockable=False)
     perms = [("c", ".*", ["All"])]
-    cfg = hist.config_lines(accts, perms, ["10.0.0.1"])
+    cfg = hist.config_lines(accts + [locked], perms, ["10.0.0.1"])
     sizes = [1, 2, 3, 15, 16, 17, 33, 64, 65] + ([127, 128, 129] if big else [])
     big_sizes = [257, 300] + ([255, 256, 513, 600] if big else [])
     ops = []
@@ -1047,6 +1048,15 @@ def c08(rep, tier, seed, wd, replay):
         epoch += 4
         ms = ";".join("%s,%s,%s" % (adr(a), hist.dom32(DOM_RANDAO, rng).hex(), bytes(rng.below(256) for _ in range(32)).hex()) for a in picks)
         ops.append("msign %s - - %s" % (hx("c"), ms))
+        # the same kind of batch with ONE entry that fails before the rules are consulted (unknown account / account that
+        # cannot be unlocked / unknown key) at the front, in the middle or at the end: whatever the batch does with the
+        # other entries, an entry's signature is by the account THAT entry addresses over THAT entry's data
+        if n <= 65:
+            mi = ["%s,%s,%s" % (adr(a), hist.dom32(DOM_RANDAO, rng).hex(), bytes(rng.below(256) for _ in range(32)).hex()) for a in picks]
+            badadr = rng.choice(["n:" + hx("Wallet 1/Nobody"), "n:" + hx(locked.path), "k:" + locked.pk.hex(), "k:" + keys[nacct + 1].hex()])
+            pos_ = rng.choice([0, 0, len(mi) // 2, len(mi)])
+            mi.insert(pos_, "%s,%s,%s" % (badadr, hist.dom32(DOM_RANDAO, rng).hex(), bytes(rng.below(256) for _ in range(32)).hex()))
+            ops.append("msign %s - - %s" % (hx("c"), ";".join(mi)))
     ops_big = ops[n_small_ops:]
     ops = ops[:n_small_ops]
     for i in range(40 if not big else 300):
@@ -1058,12 +1068,12 @@ def c08(rep, tier, seed, wd, replay):
         ops.append("sign %s - %s %s,%s -" % (hx("c"), adr(a), hist.dom32(DOM_RANDAO, rng).hex(), rt[0]))
         epoch += 2
     all_h = []
-    runs = [({"cfg": cfg, "ops": ops, "accts": accts, "opts": {}, "gomaxprocs": p}, "ssz") for p in ([1, 2, 3, 16] if not big else [1, 2, 3, 16, 128])]
-    runs.append(({"cfg": cfg, "ops": ops_big, "accts": accts, "opts": {}, "gomaxprocs": 3}, "ssz-big"))
+    runs = [({"cfg": cfg, "ops": ops, "accts": accts + [locked], "opts": {}, "gomaxprocs": p}, "ssz") for p in ([1, 2, 3, 16] if not big else [1, 2, 3, 16, 128])]
+    runs.append(({"cfg": cfg, "ops": ops_big, "accts": accts + [locked], "opts": {}, "gomaxprocs": 3}, "ssz-big"))
     # the same requests through the real gRPC API (TLS, interceptors, handlers): whatever the handlers do with a batch
     # (splitting, copying results back) must keep entry i the answer to request i
     for p in ([4] if not big else [2, 16]):
-        runs.append(({"cfg": ["viagrpc"] + cfg, "ops": ops_big + ops[:12], "accts": accts, "opts": {}, "gomaxprocs": p, "viagrpc": True}, "ssz-grpc"))
+        runs.append(({"cfg": ["viagrpc"] + cfg, "ops": ops_big + ops[:12], "accts": accts + [locked], "opts": {}, "gomaxprocs": p, "viagrpc": True}, "ssz-grpc"))
     from concurrent.futures import ThreadPoolExecutor as _TPE
 
     def _run(hr):
@@ -1093,12 +1103,13 @@ def c08(rep, tier, seed, wd, replay):
         lines_ = ["reset"] + cfg + conc_.scenario_lines([], "yield", cops, 64)
         io_, crashed_, err_ = _ri(dh, wd, lines_, env={"GOMAXPROCS": str(p)}, timeout=1200)
         if crashed_ or len(io_) < len(cops) + 4 or any(o.startswith("TIMEOUT") for o in io_):
-            rep.broken.append(("implementation-crash:ssz-concurrent", err_[-1500:], False))
+            rep.broken.append(("implementation-crash:ssz-concurrent", json.dumps({"gomaxprocs": p, "crashed": crashed_, "lines": len(io_), "expected": len(cops) + 4,
+                                                                                   "timeouts": [o for o in io_ if o.startswith("TIMEOUT")][:3], "stderr": err_[-1500:]}), False))
             continue
         res_ = conc_.parse_go(io_[1 + 1 + len(cops)])
         ops_ = [op for _, op in cops]
         mo_ = _rm(["reset"] + cfg + ops_)
-        h = {"cfg": cfg, "ops": ops_, "accts": accts, "opts": {}, "gomaxprocs": p, "impl": [x[2] for x in res_], "model": mo_[1:], "bad": [],
+        h = {"cfg": cfg, "ops": ops_, "accts": accts + [locked], "opts": {}, "gomaxprocs": p, "impl": [x[2] for x in res_], "model": mo_[1:], "bad": [],
              "concurrent": True}
         all_h.append(h)
         rep.dist("concurrent_signing_requests", "GOMAXPROCS=%d" % p, len(cops))
@@ -1676,6 +1687,41 @@ def c04(rep, tier, seed, wd, replay):
     first_bad, dh, keys, rng = lock_trace_histories(rep, tier, seed, wd, "C04")
     ns, nsoak, ssize = tier_sizes(tier, (60, 2, 150), (1200, 10, 400))
     found = run_conc(rep, dh, wd, keys, rng, ns, nsoak, ssize, [None] if tier != "thorough" else [2, 16, 128], n_cross=2 if tier != "thorough" else 10)
+    # start-up: the store already holds records (old gob format / current format / none) and the first state write after the
+    # rules service starts stalls (slow disk).  Whatever else the service does with the store while it starts must not undo
+    # what the first requests record: a request conflicting with one answered earlier is refused.
+    accts, perms, admins = hist.std_config(keys, nacct=4, locked=False)
+    ns_ = ["n:" + hx(a.path) for a in accts[:3]]
+    gob_a, gob_p = gob_records(dh, ["att 5 6", "prop 5"])
+    cur_a, cur_p = bytes([1]) + (5).to_bytes(8, "little") + (6).to_bytes(8, "little"), bytes([1]) + (5).to_bytes(8, "little")
+    SH = []
+    for label, ra, rp in (("legacy", gob_a, gob_p), ("current", cur_a, cur_p), ("empty", None, None)):
+        for stall in (250, 0):
+            raws = [(a.pk + b"\x02", ra) for a in accts[:3]] + [(a.pk + b"\x03", rp) for a in accts[:3]] if ra else []
+            cfg = ["stallfirst %d" % stall] * (1 if stall else 0) + hist.config_lines(accts, perms, admins, raws)
+            ops = [att_line("client1", n_, 6, 7, 0) for n_ in ns_] + [prop_line("client1", n_, 6, 0) for n_ in ns_] + ["pause %d" % (stall + 150)] + \
+                  [att_line("client1", n_, 6, 7, 1) for n_ in ns_] + [prop_line("client1", n_, 6, 1) for n_ in ns_] + \
+                  [att_line("client1", n_, 5, 8, 1) for n_ in ns_] + [att_line("client1", n_, 7, 8, 0) for n_ in ns_] + ["export"]
+            SH.append({"cfg": cfg, "ops": ops, "accts": accts, "opts": {}, "label": "startup-%s-stall%d" % (label, stall)})
+    if REPLAY is not None:
+        rh = replay_history()
+        SH = [rh] if rh and any(o.startswith("pause") for o in rh["ops"]) else []
+    if SH:
+        crashed, err = engines.exec_histories(dh, wd, SH)
+        if crashed:
+            rep.broken.append(("implementation-crash:startup", err[-1500:], False))
+        for h in SH:
+            rep.dist("scenario", h.get("label", "startup-replay"))
+            rep.count("startup|" + json.dumps(h["cfg"][:2]) + str(len(h["cfg"])), True)
+            for (i, op, il, ml) in h["bad"]:
+                if op.split()[0] in ("att", "prop") and "S" in hist.states_of(il) and "S" not in hist.states_of(ml) and not found:
+                    rep.violation("lost-update-at-startup", "a request conflicting with one answered earlier was signed: what the earlier request recorded was undone while the service started",
+                                  {"config": h["cfg"], "ops": h["ops"][:i + 1], "impl": il[:120], "model": ml[:120]})
+                    found = True
+            if h["bad"] and not found and first_bad is None:
+                i, op, il, ml = h["bad"][0]
+                rep.broken.append(("correspondence:startup(model vs implementation on a pre-filled store)",
+                                   json.dumps({"config": h["cfg"], "ops": h["ops"][:i + 1], "impl": il[:300], "model": ml[:300]}), found))
     if first_bad is not None:
         h, (i, op, il, ml) = first_bad
         rep.broken.append(("correspondence:lock-trace(model lock protocol vs ruler+locker calls)",
@@ -1895,7 +1941,7 @@ def c03(rep, tier, seed, wd, replay):
                            json.dumps({"config": h["cfg"], "ops": h["ops"][:i + 1], "impl": il[:300], "model": ml_[:300]}), found))
 
 
-DKG_DIFF_OPS = ("cluster", "gen", "gens", "holds", "cprepare", "hprepare", "hprepares", "hexecute", "hcontribute", "hcommit", "habort", "sleep")
+DKG_DIFF_OPS = ("cluster", "gen", "gens", "holds", "cprepare", "hprepare", "hprepares", "hexecute", "hcontribute", "hcommit", "habort", "sleep", "ctxdl")
 
 
 def c18(rep, tier, seed, wd, replay):
@@ -2247,7 +2293,7 @@ def c19(rep, tier, seed, wd, replay):
         rep.broken.append(("correspondence:tls(transport model with the regenerated client-auth mode vs daemon)", json.dumps(first_bad), found))
 
 
-DKG_DIFF_OPS_C14 = ("iatt", "iattx", "iatts", "iatts2", "iprop")
+DKG_DIFF_OPS_C14 = ("iatt", "iattx", "iatts", "iatts2", "iattsu", "iprop")
 
 
 def c14(rep, tier, seed, wd, replay):
@@ -2283,7 +2329,7 @@ def c14(rep, tier, seed, wd, replay):
         gen_o = r_["impl"][1].split()
         composite = gen_o[1] if gen_o[0] == "ok" else None
         jl.append("reset")
-        for (kind, d1, d2, i1, i2) in pairs:
+        for (kind, d1, d2, i1, i2, win) in pairs:
             signed1 = sorted({lines[i].split()[1] for i in i1 if ":" in r_["impl"][i]})
             signed2 = sorted({lines[i].split()[1] for i in i2 if ":" in r_["impl"][i]})
             rep.dist("pair", kind)
@@ -2306,6 +2352,47 @@ def c14(rep, tier, seed, wd, replay):
                     if root:
                         chosen = sorted(parts)[:t]
                         comb.append((tag, "combine %s %s %s %s" % (hx(acct), composite, root, ",".join("%s:%s" % (c_, parts[c_]) for c_ in chosen))))
+    # what the released partial signatures ACTUALLY sign, whatever request they came back for: every signature an instance
+    # released inside a pair's window (any endpoint, any batch position) is verified under that instance's share key over the
+    # signing root of each of the pair's two duties (roots from the Lean model); per duty, the instances whose signatures
+    # verify are counted — both reaching t, or one instance under both, is the violation
+    import re as _re
+    from common import sh as _sh
+    cand, rootq = [], []
+    for (tag, n, t, acct, lines, pairs), r_ in zip(scen, res):
+        if r_["crashed"] or len(r_["impl"]) < len(lines) or not lines[-1].startswith("sharepubs"):
+            continue
+        pubs = dict(tok.split(":") for tok in r_["impl"][-1].split() if ":" in tok)
+        for pi, (kind, d1, d2, i1, i2, win) in enumerate(pairs):
+            for which, d in ((1, d1), (2, d2)):
+                rootq.append(("aroot " if d[0] == "iatt" else "proot ") + d[1])
+                for li in range(win[0], min(win[1], len(lines))):
+                    f_ = lines[li].split()
+                    if f_[0] not in DKG_DIFF_OPS_C14 or f_[1] not in pubs:
+                        continue
+                    for sg in _re.findall(r"[0-9a-f]{192}", r_["impl"][li]):
+                        cand.append((tag, pi, which, f_[1], pubs[f_[1]], len(rootq) - 1, sg, li))
+    if cand:
+        roots = [x.strip() for x in run_model(rootq)]
+        rc_, o_, e_ = _sh([dh, "sigcheck"], input="\n".join("%s %s %s" % (c_[4], roots[c_[5]], c_[6]) for c_ in cand) + "\n")
+        ver = {}
+        for c_, o in zip(cand, o_.splitlines()):
+            if o.strip() == "ok":
+                ver.setdefault((c_[0], c_[1]), {1: set(), 2: set()})[c_[2]].add(c_[3])
+        rep.cov["partial_signatures_verified_against_both_duties"] = len(cand)
+        for (tag, n, t, acct, lines, pairs), r_ in zip(scen, res):
+            for pi, (kind, d1, d2, i1, i2, win) in enumerate(pairs):
+                v = ver.get((tag, pi))
+                if not v or found:
+                    continue
+                if v[1] & v[2]:
+                    rep.violation("instance-signed-both", "one instance released partial signatures that verify over both of two conflicting duties",
+                                  {"scenario": tag, "kind": kind, "instances": sorted(v[1] & v[2]), "lines": lines[:win[1]], "pair_lines": lines[win[0]:win[1]]})
+                    found = True
+                elif len(v[1]) >= t and len(v[2]) >= t:
+                    rep.violation("both-reach-threshold", "two conflicting duties both collected a threshold of partial signatures (counting what each released signature verifies over)",
+                                  {"scenario": tag, "kind": kind, "signed_first": sorted(v[1]), "signed_second": sorted(v[2]), "lines": lines[:win[1]]})
+                    found = True
     out = run_model(jl)
     for meta, o in zip(jm, [x for x in out if x.strip() in ("ok", "BOTH-REACH-THRESHOLD")]):
         if o.strip() != "ok":
@@ -2615,6 +2702,24 @@ def c16(rep, tier, seed, wd, replay):
     if res:
         r_ = res[1]
         rep.sample({"scenario": r_["tag"], "lines": r_["lines"][1:4], "impl": r_["impl"][1:4]})
+    if first_bad is not None and not found:
+        # "refused AND changes nothing", decided on the implementation alone: run the same scenario without the messages the
+        # implementation refused as coming from an unknown sender; every other reply must be what it was with them
+        from common import run_impl
+        fb = first_bad
+        refused = {k for k, o in enumerate(fb["impl"]) if o.strip() == "E:unknownsender" and fb["lines"][k].split()[0] in dkg.MSGS}
+        if refused:
+            keep = [k for k in range(len(fb["lines"])) if k not in refused]
+            po, pc, pe = run_impl(dh, wd, [fb["lines"][k] for k in keep], engine="dkg", timeout=600)
+            if not pc and len(po) == len(keep):
+                for k, o in zip(keep, po):
+                    if o.strip() != fb["impl"][k].strip() and fb["lines"][k].split()[0] not in ("msglog",):
+                        rep.violation("refused-message-changed-state", "a key-generation message refused as coming from an unknown sender changed what later "
+                                      "messages from peers are answered (%s with it, %s without it)" % (fb["impl"][k].strip()[:60], o.strip()[:60]),
+                                      {"scenario": fb["tag"], "lines": fb["lines"][:k + 1], "impl": fb["impl"][:k + 1],
+                                       "refused_lines": sorted(q for q in refused if q < k), "reply_without_them": o.strip()[:200]})
+                        found = True
+                        break
     if first_bad is not None:
         i, l, a, b = first_bad["bad"][0]
         rep.broken.append(("correspondence:dkg-auth(model receiver handlers vs implementation)",
